@@ -10,17 +10,17 @@ def grp(mod, g):
     return next(x for x in curve_groups() if x.mod == mod and x.grp == g)
 
 
-def pair_case(mod, Q, P, rng=None, fe=1, scale=True):
+def pair_case(mod, Q, P, rng=None, fe=1, scale=True, sq=None, sp=None):
     """protocol case for pairing(Q, P) of implementation `mod`; Q, P oracle affine points (G2, G1)"""
     g1, g2 = grp(mod, "G1"), grp(mod, "G2")
     if mod.startswith("Opt"):
-        sq = rand_scale(rng, g2.b) if (rng and scale) else g2.b.like(1)
-        sp = rand_scale(rng, g1.b) if (rng and scale) else g1.b.like(1)
+        sq = sq if sq is not None else (rand_scale(rng, g2.b) if (rng and scale) else g2.b.like(1))
+        sp = sp if sp is not None else (rand_scale(rng, g1.b) if (rng and scale) else g1.b.like(1))
         return Case("pairing." + mod, proj_tokens(Q, sq) + proj_tokens(P, sp) + [fe])
     return Case("pairing." + mod, aff_tokens(Q) + aff_tokens(P))
 
 
-def lib_pairing(mod, Q, P, rng=None, fe=True):
+def lib_pairing(mod, Q, P, rng=None, fe=True, sq=None, sp=None):
     """evaluate the REAL pairing; returns list of 12 ints"""
     import importlib
     import pyexec
@@ -28,8 +28,8 @@ def lib_pairing(mod, Q, P, rng=None, fe=True):
     M = importlib.import_module(pyexec.MODS[mod])
     C1, C2 = pyexec.fcls(g1.spec), pyexec.fcls(g2.spec)
     if mod.startswith("Opt"):
-        sq = rand_scale(rng, g2.b) if rng else g2.b.like(1)
-        sp = rand_scale(rng, g1.b) if rng else g1.b.like(1)
+        sq = sq if sq is not None else (rand_scale(rng, g2.b) if rng else g2.b.like(1))
+        sp = sp if sp is not None else (rand_scale(rng, g1.b) if rng else g1.b.like(1))
 
         def l2(X, s):
             if X is None:
